@@ -87,6 +87,7 @@ def run(repo, rep, tier):
     _sinks(repo, rep)
     _cache_scope(repo, rep, func, res, steps)
     _tables(repo, rep, func)
+    _parsers(repo, rep)
 
 
 EXPECT_KIND = {
@@ -404,6 +405,23 @@ def _skeletons(repo, rep):
               "test reads what the expression engine assigned, body is the "
               "guarded node, orelse the alternative", construct="condition-if",
               where=L.where(f), detail=detail)
+    # and / or chains: the next term is evaluated only while the result so
+    # far is True (and) / False (or)
+    inner = [lin.item(i) for i in lin.all(L.is_py("If"))
+             if isinstance(lin.item(i).f.get("test"), A.Py)
+             and lin.item(i).f["test"].kind == "Compare"]
+    okl = bool(inner)
+    for node in inner:
+        t = node.f["test"]
+        cmpv = A.show(t.f.get("comparators"), limit=8)
+        ops = A.show(t.f.get("ops"), limit=4)
+        if not ("isinstance(" in cmpv and "And)" in cmpv and "Is()" in ops
+                and "__condition" in A.show(t.f.get("left"))):
+            okl = False
+    rep.check(okl, "R01.4", f.qualname, "logical chains short-circuit: the "
+              "next term runs iff the value so far 'is' True for And / False "
+              "for Or (compared with isinstance(node, And))",
+              construct="logical-chain", where=L.where(f))
     ev = lin.index(lambda it: isinstance(it, A.Eval))
     rep.check(ifs and ev >= 0 and ev < max(ifs), "R01.4", f.qualname,
               "the condition is evaluated before the test",
@@ -633,6 +651,109 @@ def _cache_scope(repo, rep, func, res, steps):
               where=L.where(func, search.lineno), detail=detail)
     # children see the switch: push precedes the children visit, pop follows
     L.g_pair_stack(rep, "R01.6", func, res, "self._switches")
+
+
+def _parsers(repo, rep):
+    """Statement argument parsers: keyword alternatives of the regexes and
+    the defaults applied when a keyword is absent."""
+    from .. import rx
+    rep.rule("R01.8", "statement argument parsers: keyword alternatives, "
+                      "defaults (text / local), name lists")
+
+    def first_group_words(name):
+        rc = repo.const("chameleon.tal", name)
+        tree = rx.parse(rc.pattern, rc.flags)
+        words = set()
+
+        def lit(items):
+            out = ""
+            for op, av in items:
+                if op is rx.C.LITERAL:
+                    out += chr(av)
+                else:
+                    return None
+            return out
+
+        def walk(items):
+            for op, av in items:
+                if op is rx.C.SUBPATTERN and av[0] == 1:
+                    body = list(av[3])
+                    if len(body) == 1 and body[0][0] is rx.C.BRANCH:
+                        for alt in body[0][1][1]:
+                            # sre factors common prefixes; rebuild words
+                            w = lit(alt)
+                            if w is not None:
+                                words.add(w)
+                    else:
+                        # common prefix factored: prefix + branch
+                        pre = ""
+                        for op2, av2 in body:
+                            if op2 is rx.C.LITERAL:
+                                pre += chr(av2)
+                            elif op2 is rx.C.BRANCH:
+                                for alt in av2[1]:
+                                    w = lit(alt)
+                                    if w is not None:
+                                        words.add(pre + w)
+                    return True
+                if op is rx.C.SUBPATTERN:
+                    if walk(av[3]):
+                        return True
+                elif op in (rx.C.MAX_REPEAT, rx.C.MIN_REPEAT):
+                    if walk(av[2]):
+                        return True
+                elif op is rx.C.BRANCH:
+                    for alt in av[1]:
+                        if walk(alt):
+                            return True
+            return False
+        walk(list(tree))
+        return words, rc
+    w, rc = first_group_words("SUBST_RE")
+    rep.check(w == {"text", "structure"}, "R01.8", "chameleon.tal.SUBST_RE",
+              "content/replace/on-error accept the keywords text and "
+              "structure", construct="subst-keywords", detail=str(sorted(w)))
+    w, rc = first_group_words("DEFINE_RE")
+    rep.check(w == {"global", "local"}, "R01.8", "chameleon.tal.DEFINE_RE",
+              "define/repeat accept the keywords global and local",
+              construct="define-keywords", detail=str(sorted(w)))
+    f = repo.func("chameleon.tal.parse_substitution")
+    t = " ".join(src(x) for x in ast.walk(f.node) if isinstance(x, ast.stmt))
+    rep.check("if not key: key = 'text'" in t and
+              "return (key, expression)" in t, "R01.8", f.qualname,
+              "without a keyword a substitution is text (escaped)",
+              construct="subst-default", where=L.where(f))
+    rep.check("(key, expression) = groups(m, clause)" in t or
+              "key, expression = groups(m, clause)" in t, "R01.8",
+              f.qualname, "keyword and expression are the two captured "
+              "groups, in this order", construct="subst-groups",
+              where=L.where(f))
+    f = repo.func("chameleon.tal.parse_defines")
+    t = " ".join(src(x) for x in ast.walk(f.node) if isinstance(x, ast.stmt))
+    rep.check("context = context or 'local'" in t, "R01.8", f.qualname,
+              "without a keyword a definition is local",
+              construct="define-default", where=L.where(f))
+    rep.check("if name.startswith('('): names = [n.strip() for n in "
+              "name.strip('()').split(',')] else: names = (name,)" in t,
+              "R01.8", f.qualname, "a parenthesised name list defines "
+              "several names, a bare name one", construct="define-names",
+              where=L.where(f))
+    rep.check("defines.append((context, names, expr))" in t and
+              "for part in split_parts(clause):" in t, "R01.8", f.qualname,
+              "one (context, names, expression) triple per ';'-separated "
+              "part, in written order", construct="define-triples",
+              where=L.where(f))
+    ve = repo.func(VE)
+    t = " ".join(src(x) for x in ast.walk(ve.node) if isinstance(x, ast.stmt))
+    rep.check("nodes.Assignment(names, nodes.Value(expr), context == "
+              "'local')" in t, "R01.8", ve.qualname, "the context keyword "
+              "decides local vs global", construct="define-context",
+              where=L.where(ve))
+    f = repo.func("chameleon.zpt.program.MacroProgram._make_content_node")
+    t = " ".join(src(x) for x in ast.walk(f.node) if isinstance(x, ast.stmt))
+    rep.check("char_escape = ('&', '<', '>') if key == 'text' else ()" in t,
+              "R01.8", f.qualname, "only the structure keyword switches "
+              "escaping off", construct="subst-key-escape", where=L.where(f))
 
 
 def _tables(repo, rep, func):
